@@ -581,7 +581,7 @@ func C17_FlagPairs() {
 
 // ---- operands of '*' that are rejected, or are not ints
 
-var starOperandFormats = []string{"<%*d|%d>", "<%.*d|%d>", "<%-*x|%x>", "<%[1]*d|%d>", "<%*s|%v>"}
+var starOperandFormats = []string{"<%*d|%d>", "<%.*d|%d>", "<%-*x|%x>", "<%[1]*d|%d>", "<%+*d|%o>"}
 
 // C17_StarOperand: a '*' operand outside the accepted range (magnitude above
 // 10^6), or not an int at all, is reported once (%!(BADWIDTH) / %!(BADPREC)),
